@@ -172,6 +172,7 @@ func runC07(c *vk.Ctx) {
 	runC07Deep(c)
 	runC07Wide(c)
 	runC07SinkReuse(c)
+	runC07Prepared(c)
 	n := c.N(1600, 60000)
 	for i := 0; i < n; i++ {
 		if !c.Mine(i) {
